@@ -10,6 +10,8 @@ Theorem C17_vector : C17_vector_stmt.                               Proof. exact
 Theorem C17_int_clamp : C17_int_clamp_stmt.                         Proof. exact C17_int.C17_int_clamp. Qed.
 Theorem C17_int_wrapped_between : C17_int_wrapped_between_stmt.     Proof. exact C17_int.C17_int_wrapped_between. Qed.
 Theorem C17_int_wrap : C17_int_wrap_stmt.                           Proof. exact C17_int.C17_int_wrap. Qed.
+(** the inputs of the three repaired overflow defects now give the demanded values, with and without overflow checks *)
+Theorem C17_repaired : C17_repaired_stmt.                           Proof. exact C17_int.C17_repaired. Qed.
 
 Print Assumptions C17_clamp.
 Print Assumptions C17_wrap.
@@ -17,3 +19,4 @@ Print Assumptions C17_vector.
 Print Assumptions C17_int_clamp.
 Print Assumptions C17_int_wrapped_between.
 Print Assumptions C17_int_wrap.
+Print Assumptions C17_repaired.
